@@ -89,6 +89,8 @@ mod verif_kani {
         let mut h = any_history();
         let (old_last, old_mask) = (h.last_tick, h.mask);
         let t = RepliconTick::new(kani::any());
+        // requires (property C12): the confirmed tick is less than half the counter range away from the last one
+        kani::assume((t.get().wrapping_sub(old_last.get()) as i32).unsigned_abs() < (1 << 30));
         h.confirm(t);
         assert!(inv(&h));
         // the confirmed tick never moves backwards
@@ -98,7 +100,6 @@ mod verif_kani {
         let p = RepliconTick::new(kani::any());
         // probes are taken within half the counter range of both the old and the new last tick
         kani::assume((p.get().wrapping_sub(old_last.get()) as i32).unsigned_abs() < (1 << 30));
-        kani::assume((t.get().wrapping_sub(old_last.get()) as i32).unsigned_abs() < (1 << 30));
         // plain-set oracle: confirmed' = confirmed + {t}, queried through the new window
         let was = in_set(old_last, old_mask, p);
         let expect = p <= last && (last - p >= 64 || p == t || was);
